@@ -118,8 +118,10 @@ CLAIMS = {
         note="What runs in /repo is the generated ANTLR lexer/parser (serialized ATN), not the grammar file: their agreement with the model is differential "
         "validation. Proved at token level: C17_valid_documents_parse / C17_parseDoc_roundtrip (every sequence of well-formed rules is read back from its tokens as "
         "exactly these rules, no error, with the parser's own fuel; round trip R10), C17_illegal_start_rejected, C17_leading_whitespace, and the converse C17_accepted_rules_wellformed / C17_parser_range (whatever is accepted is a well-formed "
-        "document: condition, at least one action, grouping by prec) — the parser's range is exactly the well-formed documents. Not proved: the lexer step "
-        "in general, i.e. the character-level (what the recogniser accepts derives from the grammar). Fixes 3cd0826 (a "
+        "document: condition, at least one action, grouping by prec) — the parser's range is exactly the well-formed documents. Proved at character level: C17_text_to_rules (for every well-formed document with writable names and literals "
+        "the lexer model reads the canonical text — each token in canonical spelling followed by one space — into the document's tokens without error, maximal munch "
+        "decided rule by rule, and the parser with the real literal decoder reads them back as exactly the document), C17_lex_render. Not proved: other spacings and "
+        "comments between tokens, float and non-decimal literal notations (sampled by the correspondence per token pair). Fixes 3cd0826 (a "
         "rejected resource adds no rule) and 2e94e10 (salience out of range is an error, not a panic) in /repo.",
         tech="Lean 4 executable front-end model + theorems on the builder's effect + regenerated lexer facts (decide ties) + mutation-based differential correspondence", ref="5.C17"),
  "C18": dict(text="Lean model of pkg/JsonResource.go function by function (Json/Translate: depth-dependent bracketing, noWrap, single-operand not, number "
